@@ -546,20 +546,27 @@ DEV_INV = {"ChildOrderUnspecified": "ChildOrderFaithful", "StaleJobRowKept": "Jo
 
 
 def model_check(ctx: Ctx) -> None:
-    me, mt, mx = ctx.pick((2, 1, 2), (2, 2, 3))
+    me, mt, mx = ctx.pick((1, 1, 2), (2, 2, 2))
     jobs = []
     # (a) repaired world: the whole contract; (b) as built: everything but the three deviation
     # invariants; (c) each deviation alone breaks exactly its own invariant
     jobs.append(("ideal", mc_cfg([], me, mt, mx, ["TypeOK", "TagLeafInv", "IdealAgrees"] + CONTRACT), None))
     keep = [i for i in CONTRACT if i not in DEV_INV.values()]
-    jobs.append(("asbuilt", mc_cfg(ALL_DEVS, me, mt, mx, ["TypeOK", "TagLeafInv", "AsBuiltAgrees"] + keep), None))
+    jobs.append(("asbuilt", mc_cfg(ALL_DEVS, me, 1 if not ctx.quick else mt, mx,
+                                   ["TypeOK", "TagLeafInv", "AsBuiltAgrees"] + keep), None))
+    if not ctx.quick:  # three tag edits (add / update / delete chains) with one execution
+        jobs.append(("ideal_tags", mc_cfg([], 1, 3, 2, ["TypeOK", "TagLeafInv", "IdealAgrees"] + CONTRACT), None))
+        jobs.append(("asbuilt_tags", mc_cfg(ALL_DEVS, 1, 3, 2, ["TypeOK", "TagLeafInv", "AsBuiltAgrees"] + keep), None))
     for dev, inv in DEV_INV.items():
         jobs.append((dev, mc_cfg([dev], 1, 0, 2, [inv]), inv))
+
+    def inv_of(name):
+        return next(j[2] for j in jobs if j[0] == name)
 
     def one(job):
         name, cfg, _ = job
         sub = ctx.scratch / f"mc_{name}"
-        return run_tlc("cache/Transfer.tla", cfg, sub, workers=ctx.pick(2, 8) if name in ("ideal", "asbuilt") else 1,
+        return run_tlc("cache/Transfer.tla", cfg, sub, workers=(ctx.pick(2, 8) if name == "ideal" else ctx.pick(2, 4)) if inv_of(name) is None else 1,
                        deadlock=False, timeout=3000, heap="6g")
 
     with ThreadPoolExecutor(max_workers=len(jobs)) as ex:
@@ -570,7 +577,8 @@ def model_check(ctx: Ctx) -> None:
         else:
             expect_violation(res, inv, f"Transfer.tla: {name} must break {inv}")
         ctx.add_tlc(res)
-    ctx.note("model_bounds", {"MaxExec": me, "MaxTagOps": mt, "MaxXfer": mx})
+    ctx.note("model_bounds", {"MaxExec": me, "MaxTagOps": mt, "MaxXfer": mx,
+                              "extra": None if ctx.quick else "MaxExec 1, MaxTagOps 3, MaxXfer 2"})
 
 
 def run(ctx: Ctx) -> None:
@@ -598,20 +606,29 @@ def run(ctx: Ctx) -> None:
         sizes = [m["rows"]["src"] for m in metas]
         ctx.note("transfers", {"n": len(traces), "max_src_rows": max(sizes), "channels": sorted({m["channel"] for m in metas})})
 
-        # negative control: drop one transferred row from a destination dump
-        base = next(i for i, t in enumerate(traces) if t["n1"] > 3 and any(r[0] == "Argument" for r in t["d1"])
-                    and not any(r[0] == "Argument" for r in t["d0"]))
-        bad = copy.deepcopy(traces[base])
-        victim = next(r for r in bad["d1"] if r[0] == "Argument")
-        bad["d1"].remove(victim)
-        bad["d2"] = [r for r in bad["d2"] if r != victim]
-        traces.append(bad)
+        # negative control: drop one transferred row from a destination dump (three different transfers,
+        # so that a code base that already breaks one of them does not blind the control)
+        traces = [t for t in traces if t]
+        if not traces:
+            fut.result()
+            ctx.require(bool(ctx.violations), "no transfer could be traced and nothing was reported")
+            return
+        bases = [i for i, t in enumerate(traces) if t["n1"] > 3 and any(r[0] == "Argument" for r in t["d1"])
+                 and not any(r[0] == "Argument" for r in t["d0"])][:3]
+        ctx.require(bool(bases), "no transfer suitable for the negative control")
+        for base in bases:
+            bad = copy.deepcopy(traces[base])
+            victim = next(r for r in bad["d1"] if r[0] == "Argument")
+            bad["d1"].remove(victim)
+            bad["d2"] = [r for r in bad["d2"] if r != victim]
+            traces.append(bad)
         verdicts = validate(ctx, traces, "all")
         fut.result()
 
     nb = len(traces)
-    ctx.negative_control(verdicts[nb]["rows"] == 0 and verdicts[base + 1]["rows"] == 1,
-                         "a destination dump with one transferred Argument row removed must fail RowsKept")
+    ctl = [verdicts[nb - k]["rows"] == 0 for k in range(len(bases))]
+    ctx.negative_control(all(ctl), "a destination dump with one transferred Argument row removed must fail RowsKept")
+    ctx.note("negative_control_bases_clean", sum(1 for b in bases if verdicts[b + 1]["rows"] == 1))
     for i, m in enumerate(metas, 1):
         judge(ctx, verdicts[i], m, stats)
         if m["n1"] != 0 or m["rows"]["d0"] > 0:
